@@ -873,6 +873,21 @@ class Engine:
         if decl in ('std::option::Option::<T>::map', 'std::result::Result::<T, E>::map', 'std::result::Result::<T, E>::and_then',
                     'std::option::Option::<T>::and_then') and len(args) == 2:
             return self.apply(args[1], (args[0],))
+        if decl in ('std::iter::Iterator::fold', 'std::iter::Iterator::try_fold') and len(args) == 3:
+            # a fold whose closure hands its accumulator on (mutated: `acc.push(..)`, `acc += ..`) is a loop filling / updating the
+            # initial value: the value is the initial value with the closure's events on the accumulator, per element of the iterator
+            f0 = args[2][1] if args[2].tag == 'mut' else args[2]
+            if f0.tag == 'closure' and f0[1] in self.facts.fn:
+                r = self.apply(f0, (args[1], mk_elem(self, args[0])))
+                sv = success_value(r)
+                sv = sv if sv is not None else r
+                base0, basei = sv, args[1]
+                while base0.tag == 'mut':
+                    base0 = base0[1]
+                while basei.tag == 'mut':
+                    basei = basei[1]
+                if sv.tag == 'mut' and base0 is basei:
+                    return sv
         if decl == 'std::iter::Iterator::enumerate':
             return T('enumerate', args[0])
         if decl == 'std::iter::once':
